@@ -313,6 +313,23 @@ pub fn gen_history(seed: u64, p: &Profile) -> History {
                 ops.push(Op::Search { idx: d.idx, seed: rng.gen() });
             }
         }
+        // a metric change of a freshly built index followed at once by a build, no item touched in between
+        // (no pending mark: everything the build needs to know is that the metadata is gone)
+        if p.p_change_metric > 0.0 && rng.gen_bool(0.3) {
+            let which = rng.gen_range(0..indexes.len());
+            let d = &indexes[which];
+            let to = *p.metrics.choose(&mut rng).unwrap();
+            ops.push(Op::ChangeMetric { idx: d.idx, to });
+            metrics[which] = to;
+            let mut o = gen_opts(&mut rng, p, const_cap, fixed_split[which]);
+            if rng.gen_bool(0.6) {
+                o.n_trees = None;
+            }
+            ops.push(Op::Build { idx: d.idx, o });
+            if rng.gen_bool(p.p_search) {
+                ops.push(Op::Search { idx: d.idx, seed: rng.gen() });
+            }
+        }
         let x: f64 = rng.gen();
         if x < p.p_commit {
             ops.push(Op::Commit);
@@ -341,6 +358,7 @@ pub fn gen_opts(rng: &mut StdRng, p: &Profile, const_cap: bool, fixed: Option<us
         cancel_at: None,
         tmpdir: None,
         retry_same_builder: false,
+        map_free_pages: None,
     }
 }
 
